@@ -385,12 +385,43 @@ def t_command(key):
                         model_arg = c.arg(2, "pdf") if spec["inference"].endswith("hypotest") else c.arg(1, "pdf")
                         T.ob(eng, f"{key}#fwd.model-and-data{sfx}", path.hyps(),
                              z3.And(_zb(eng.veq(model_arg, mc[0].result)), _zb(eng.veq(data_arg, dc[0].result)), _zb(eng.veq(dc[0].args[0], mc[0].result))), kind="forwarding")
+                # ---- the model the command evaluates is the model the library builds: besides the measurement and the patches the
+                # command may hand Workspace.model only options that equal the library's own defaults (read from pdf.py)
+                for mcall in calls(path, ".model"):
+                    for kname, kval in mcall.kwargs.items():
+                        if kname in ("measurement_name", "patches"):
+                            continue
+                        dflt = _library_model_defaults().get(kname, _NO_DEFAULT)
+                        same = dflt is not _NO_DEFAULT and not z3.is_expr(kval) and kval == dflt
+                        (T.ok if same else T.fail)(f"{key}#fwd.model-option-{kname}-is-the-library-default{sfx}",
+                                                   *([] if same else [f"Workspace.model receives {kname}={kval!r}; the library default is {dflt!r}"]),
+                                                   kind="forwarding", option="model-options")
                 # ---- out.*
                 _check_output(T, eng, key, spec, path, r, opts, sfx)
             # file == stdout across the two branches of each enumerated case
             _check_file_equals_stdout(T, eng, key, spec, normal, opts, tag)
     task.__name__ = "t_" + key.split("::")[1]
     return task
+
+
+_NO_DEFAULT = object()
+
+
+def _library_model_defaults():
+    """defaults of the model-building options, read from the current pdf.py: `default_<option> = <literal>` in _ModelConfig.__init__"""
+    import ast
+    import os
+    src = open(os.path.join(os.environ.get("PYVC_REPO", "/repo"), "src", "pyhf", "pdf.py")).read()
+    out = {}
+    for node in ast.walk(ast.parse(src)):
+        if isinstance(node, ast.ClassDef) and node.name == "_ModelConfig":
+            for st in ast.walk(node):
+                if isinstance(st, ast.Assign) and len(st.targets) == 1 and isinstance(st.targets[0], ast.Name) and st.targets[0].id.startswith("default_"):
+                    try:
+                        out[st.targets[0].id[len("default_"):]] = ast.literal_eval(st.value)
+                    except ValueError:
+                        pass
+    return out
 
 
 def _is(eng, path, a, b):
@@ -603,8 +634,41 @@ def t_optconf_precedence(T):
         (T.ok if seen else T.fail)(f"{key}#paths.optconf-precedence-case-explored", *([] if seen else ["no successful path"]), kind="raises")
 
 
+def t_volume_mount(T):
+    """`xml2json -v HOST:MOUNT`: the option type hands the library (readxml.parse(..., mounts=...)) the HOST part as click.Path converts
+    it and the MOUNT part exactly as written - the mount point is matched textually against the paths inside the XML files"""
+    key = "utils.py::VolumeMountPath.convert"
+    conv = z3.Function("click.Path.convert", Obj, Obj)
+    coerce = z3.Function("click.Path.coerce_path_result", Obj, Obj)
+    eng = T.engine({})
+    f = T.under_contract(eng, key)
+    for value, host, mount in (("hostdir:data", "hostdir", "data"), ("/abs/host:./data/", "/abs/host", "./data/"), ("h:/mnt/in", "h", "/mnt/in")):
+        def thunk():
+            class_ = eng.module("utils.py").get("VolumeMountPath")
+            from pyvc.values import Rec
+            me = Rec(class_)
+            me.attrs.update({"resolve_path": True, "exists": True, "name": "path"})
+            me.attrs["coerce_path_result"] = NativeFn("coerce_path_result", lambda v: coerce(eng.box(v)))
+            eng.policy[("super_method", "convert")] = lambda e, obj, *a, **k: conv(e.box(a[0]))
+            return eng.call_function(f, [me, value, eng.obj("param"), eng.obj("ctx")], {}, force_inline=True)
+        results = eng.explore(thunk)
+        T.absorb(eng, results)
+        for k, r in enumerate(results):
+            tag = f"@{value},path{k}"
+            if r.kind != "return":
+                T.fail(f"{key}#no-raise{tag}", str(r.exc_name), kind="raises", option="volume-mount")
+                continue
+            ok = isinstance(r.value, tuple) and len(r.value) == 2
+            if not ok:
+                T.fail(f"{key}#post.pair{tag}", repr(r.value), kind="forwarding", option="volume-mount")
+                continue
+            T.ob_path(eng, f"{key}#post.host-converted-mount-as-written{tag}", r,
+                      z3.And(_zb(eng.veq(r.value[0], conv(eng.box(host)))), _zb(eng.veq(r.value[1], coerce(eng.box(mount))))), kind="forwarding", option="volume-mount")
+
+
 def tasks(tier):
     ts = [(k.split("/")[1].replace(".py::", "."), t_command(k)) for k in COMMANDS]
+    ts.append(("utils.VolumeMountPath", t_volume_mount))
     ts += [("infer.fit.output", t_fit_output), ("patchset.extract.output", t_extract_output), ("infer.optconf-precedence", t_optconf_precedence)]
     return ts
 
@@ -616,6 +680,26 @@ def replay(r):
     opt = (r.get("meta") or {}).get("option")
     if opt is None:
         return None
+    if opt == "model-options":
+        return _replay_model_options(name)
+    if opt == "volume-mount":
+        import os
+        import tempfile
+        from pathlib import Path
+        from pyhf.utils import VolumeMountPath
+        bad = {}
+        with tempfile.TemporaryDirectory() as d:
+            cwd = os.getcwd()
+            os.chdir(d)
+            try:
+                os.mkdir("hostdir")
+                for mount in ("data", "./data/", "/mnt/in"):
+                    got = VolumeMountPath(exists=True, resolve_path=True, path_type=Path).convert(f"hostdir:{mount}", None, None)
+                    if str(got[1]) != str(Path(mount)) or Path(got[0]) != Path(os.path.realpath("hostdir")):
+                        bad[f"hostdir:{mount}"] = {"got": [str(g) for g in got], "expected": [os.path.realpath("hostdir"), str(Path(mount))]}
+            finally:
+                os.chdir(cwd)
+        return {"reproduced": bool(bad), "disagreements": bad}
     cmd = name.split("::")[1].split("#")[0]
     mod = name.split("::")[0]
     if (mod, cmd, opt) == ("cli/spec.py", "inspect", "measurement"):
@@ -643,6 +727,54 @@ def replay(r):
                 "cli": "pyhf inspect ws.json --measurement does-not-exist", "cli_exit_code": res.exit_code,
                 "library": f"Workspace.model(measurement_name='does-not-exist') raises {lib_exc if not lib_ok else 'nothing'}"}
     return None
+
+
+def _replay_model_options(name):
+    """`pyhf cls` / `pyhf fit` on a workspace with histosys and normsys modifiers pulled outside the interpolation core, against the
+    library call on Workspace.model() with its defaults"""
+    import json
+    import os
+    import tempfile
+    from click.testing import CliRunner
+    import numpy as np
+    import pyhf
+    from pyhf.cli.cli import pyhf as pyhf_cli
+    spec = {"channels": [{"name": "c", "samples": [
+        {"name": "sig", "data": [6.0, 9.0], "modifiers": [{"name": "mu", "type": "normfactor", "data": None}]},
+        {"name": "bkg", "data": [50.0, 60.0], "modifiers": [{"name": "h", "type": "histosys", "data": {"hi_data": [58.0, 61.0], "lo_data": [47.0, 52.0]}},
+                                                            {"name": "n", "type": "normsys", "data": {"hi": 1.12, "lo": 0.93}}]}]}],
+            "observations": [{"name": "c", "data": [61.0, 55.0]}],
+            "measurements": [{"name": "m", "config": {"poi": "mu", "parameters": []}}], "version": "1.0.0"}
+    pyhf.set_backend("numpy")
+    ws = pyhf.Workspace(spec)
+    model = ws.model()
+    data = ws.data(model)
+    bad = {}
+    with tempfile.TemporaryDirectory() as d:
+        p = os.path.join(d, "ws.json")
+        json.dump(spec, open(p, "w"))
+        if "::cls" in name:
+            res = CliRunner().invoke(pyhf_cli, ["cls", p])
+            lib = pyhf.infer.hypotest(1.0, data, model, return_expected_set=True)
+            try:
+                got = json.loads(res.output)
+                want = float(lib[0])
+                if not np.isclose(got["CLs_obs"], want, rtol=1e-6, atol=0) or not np.allclose(got["CLs_exp"], [float(x) for x in lib[1]], rtol=1e-6, atol=0):
+                    bad["cls"] = {"cli": got, "library": {"CLs_obs": want, "CLs_exp": [float(x) for x in lib[1]]}}
+            except Exception as e:
+                bad["cls"] = f"{type(e).__name__}: {e}; exit code {res.exit_code}; output {res.output[:200]!r}"
+        elif "::fit" in name:
+            res = CliRunner().invoke(pyhf_cli, ["fit", p, "--value"])
+            pars, val = pyhf.infer.mle.fit(data, model, return_fitted_val=True)
+            try:
+                got = json.loads(res.output)
+                if not np.isclose(got["mle_parameters"]["h"][0], float(pars[model.config.par_slice("h")][0]), rtol=1e-5, atol=1e-7) or not np.isclose(got["twice_nll"], float(val), rtol=1e-7):
+                    bad["fit"] = {"cli": got, "library": {"bestfit": [float(x) for x in pars], "twice_nll": float(val)}}
+            except Exception as e:
+                bad["fit"] = f"{type(e).__name__}: {e}; exit code {res.exit_code}; output {res.output[:200]!r}"
+        else:
+            return None
+    return {"reproduced": bool(bad), "disagreements": bad}
 
 
 # ---------------------------------------------------------------- inspect on a concrete-structured workspace (tables pair the right things)
